@@ -349,6 +349,9 @@ class Guards:
         rel_sets, raw_sets = [], []
         for sb in sites:
             r, w = cg.relations_at(sb, depth + 1)
+            w = list(w)
+            for fa in foralls_at(cg, sb):
+                w.append((fa, "forall", None))
             rel_sets.append(set(r))
             raw_sets.append(w)
         rels = list(set.intersection(*rel_sets)) if rel_sets else []
@@ -411,8 +414,31 @@ def foralls_at(g, block):
             if not all(body.edge_dominates(e, block) or e[1] == block for e in yes[:1]):
                 continue
             it = ev.operand(env, t["args"][0], (lb, None))
+            def aborting_edges(es):
+                for _, tg in es:
+                    if tg in blk:
+                        r = body.reachable(tg, avoid=[h])
+                        if h in body.succ(tg) or any(h in body.succ(x) for x in r if x in blk) or block in r:
+                            return False
+                    elif block in body.reachable(tg) or tg == block:
+                        return False
+                return True
+
             for s in g.switches:
-                if s["block"] not in blk or s["block"] == sw or s["term"][0] == "discr":
+                if s["block"] not in blk or s["block"] == sw:
+                    continue
+                if s["term"][0] == "discr":
+                    # `match opt { Some(..) => .., None => return .. }` inside the loop
+                    yes_s, _ = variant_edge(body, s["block"], "Some")
+                    yes_o, _ = variant_edge(body, s["block"], "Ok")
+                    no_n, _ = variant_edge(body, s["block"], "None")
+                    no_e, _ = variant_edge(body, s["block"], "Err")
+                    pres, absn = (yes_s or yes_o), (no_n or no_e)
+                    inner = s["term"][1]
+                    if absn and aborting_edges(absn):
+                        out.append(("forall", it, ("is_ok", inner), True))
+                    elif pres and aborting_edges(pres):
+                        out.append(("forall", it, ("is_ok", inner), False))
                     continue
                 for truth in (True, False):
                     es = g.bool_edges(s, truth)
@@ -439,6 +465,8 @@ def presence_conditions(ev, env, block):
     for term, truth, sw in raw:
         if isinstance(truth, bool):
             out.add(("pred", term if truth else ("un", "Not", term)))
+        elif truth == "forall":
+            out.add(term)
     for f in foralls_at(g, block):
         out.add(f)
     return out
